@@ -170,6 +170,11 @@ theorem recv_history_total_full_object_model (cfg : Config) (ops : List Op) (hop
     → `ofAlc_wf` (here: FDT instance id < 2^20 from `parse_ext_fdt`'s mask, SCT < 2^32 s from `parse_sct`)
     → `step_total` on `AllFdt Good` states (`Lemmas/RecvTotal.lean`), an invariant (`step_good`).
 
+  UPDATE: the object level is CLOSED in Props/C04Whole.lean (agent path: `push_data_total_closed`,
+  `reachable_objects_healthy`, from orecv's `tinv_*`, wire's `toPkt_ofAlc_facts` and the generic
+  `Lemmas/RecvAllObj.step_objsAll`) under the named assumption `AnsOK`; the list below is the state of
+  THIS file on its own.
+
   WHAT IS STILL OPEN (named, not hidden):
    * the object below the interface.  `Full.iface` absorbs a fault (`panic`/`hang`) of `ObjRecv.push` /
      `ObjRecv.attachFdt` by freezing that object (`fault := true`), so the theorems below say that the
